@@ -42,7 +42,7 @@ func init() {
 		{WL: "opsim", Cfg: "prop=C17,stopat=wait", Quick: 300, Thor: 8000},
 		// the stop request races with start-up (queues still being created, hooks being enabled)
 		{WL: "opsim", Cfg: "prop=C17,stopduring=start,stopk=40", Quick: 300, Thor: 8000},
-		// the API server answers a list slowly (15-45 s) while bindings are being enabled; the stop arrives meanwhile
+		// the API server answers one list slowly (3-8 s) while bindings are being enabled; the stop arrives meanwhile
 		{WL: "opsim", Cfg: "prop=C17,stopk=300,slowlist=1", Quick: 200, Thor: 6000},
 	}
 	plans["C18"] = []Part{
@@ -495,8 +495,11 @@ func runOpsimWL(e *Env) {
 
 	nsRemoval := e.CfgIs("nsdel", "1")
 	if e.CfgIs("slowlist", "1") {
-		api.SlowList[[]string{"pods", "configmaps"}[fl.Choose(2)]] = 1 + fl.Choose(2)
-		api.SlowListDur = time.Duration(15+fl.Choose(30)) * time.Second
+		api.WrapDynamic(o.fc.Client)
+		// one list of the operator takes 3-8 s: shorter than the wait time-out of the shutdown sequence, whose two
+		// tickers fire at the same instant when it runs out (an order the simulator does not decide)
+		api.SlowList[[]string{"pods", "configmaps"}[fl.Choose(2)]] = 1
+		api.SlowListDur = time.Duration(3000+fl.Choose(5000)) * time.Millisecond
 	}
 	stopDuringStart := e.CfgIs("stopduring", "start")
 	mutDone, settled, settling := false, false, false
